@@ -203,6 +203,8 @@ class Encoder:
         for p in parts[1:]:
             if obj is _MISSING:
                 break
+            if isinstance(obj, type):
+                self.features.add("class_attr")
             obj = getattr(obj, p, _MISSING)
         return ".".join(parts), (None if obj is _MISSING else obj)
 
@@ -731,6 +733,14 @@ def hone(a, r=0.25):
 
 def hcomb(a, b):
     return hmul(a, b) - hsub(a, b) + HC
+
+
+class PC:
+    """class attribute and instance attribute differ (F-C06-16: the translator instantiates the class)"""
+    a = 1.0
+
+    def __init__(self):
+        self.a = 2.0
 '''
 
 # a second module with the same names bound to other functions / values (function-local imports pick from here)
@@ -753,6 +763,12 @@ def hclip(x, lo):
 
 def hmix(p, q):
     return p + q * 4
+
+
+K1 = 5
+NI = 7
+TAB = (1.0, 2.0)
+FLAG = True
 '''
 
 LOCAL_IMPORTS = ["from c06g import hmul", "from c06g import hclip", "from c06g import HD", "from c06g import hsub, hmul",
@@ -858,7 +874,7 @@ class Gen:
     def header(self) -> str:
         return (
             "import math\nimport numpy as np\n"
-            f"import {self.helper_mod} as hp\nfrom {self.helper_mod} import hmul, hclip, HD\n"
+            f"import {self.helper_mod} as hp\nfrom {self.helper_mod} import hmul, hclip, HD, PC\n"
             "from mxlpy import fns\nfrom mxlpy.fns import mass_action_1s\n\n"
             "K1 = 2.0\nK2 = 0.5\nK3 = -4.0\nNI = 3\n\n"
         )
@@ -1211,6 +1227,108 @@ def t_fns(s, vmax, km):
 def t_fns_perm(s1, k, vmax):
     r = fns.michaelis_menten_1s(k, s1, vmax)
     return fns.minus(r, fns.mass_action_1s_1p(vmax, k, s1, 2))
+
+
+def t_chain(x):
+    y = x
+    z = y = 2 * x
+    return y
+
+
+def t_chain3(x, y):
+    t = u = x = y * 2
+    return t + u - x + y
+
+
+def t_unpack_divmod(x, y):
+    x, y = divmod(x, y)
+    return x
+
+
+def t_unpack_call(x, y):
+    x, y = hp.hsub(x, y)
+    return x
+
+
+def t_unpack_name(x, y):
+    t = x
+    x, y = t
+    return y
+
+
+def t_star_target(a, b):
+    *a, b = b, a
+    return b
+
+
+def t_import_int(x):
+    from c06g import K1
+    return x * K1
+
+
+def t_import_int2(x):
+    from c06g import NI as K2
+    return x * K2 + K1
+
+
+def t_import_other(x):
+    from c06g import TAB as K3
+    return x * K3
+
+
+def t_import_flag(x):
+    from c06g import FLAG as K3
+    return x + K3
+
+
+def t_posonly(K1, /, x):
+    return K1 * x
+
+
+def t_posonly2(x, K3, /):
+    return K1 * x - K3
+
+
+def t_kwonly(x, *, K2=3.0):
+    return x * K2
+
+
+def t_varargs(x, *K3):
+    return x * 2
+
+
+def t_kwargs(x, **K3):
+    return x * 2
+
+
+def t_call_posonly(x, y):
+    return t_posonly(y, x) + t_posonly2(x, y)
+
+
+def t_call_kwonly(x):
+    return t_kwonly(x) + 1
+
+
+def t_class_attr(x):
+    return x * PC.a
+
+
+def t_ret_not_last(s, vmax, km):
+    if s > km:
+        v = vmax
+        sat = s / 4
+    else:
+        v = vmax * s / 4
+        sat = 1.0
+    return v
+
+
+def t_ret_not_last2(s, k):
+    v = k * s
+    if v > 10.0:
+        v = 10.0
+        over = k * s - 10.0
+    return v
 '''
 
 
@@ -1262,6 +1380,63 @@ def exhaustive_bodies() -> list[str]:
         if not lines:
             continue
         out.append("\n".join("    " + l for l in lines))
+    return out
+
+
+def multi_assign_bodies() -> list[str]:
+    """branches that consist of several plain assignments and fall through to `return <name>`: the returned name is the
+    last one a branch assigns, an earlier one, or one it does not assign (seed-independent stratum)"""
+    import itertools
+
+    branch = ["t = 2 * x\nu = x + 1", "u = x + 1\nt = 2 * x", "t = 2 * x", "t = u = 3 * x", "return x - 1"]
+    conds = ["x > 0", "x < -1"]
+    shapes: list[list[tuple[str, str]]] = []
+    for b1 in branch:
+        shapes.append([("if " + conds[0], b1)])
+    for b1, b2 in itertools.product(branch, repeat=2):
+        shapes.append([("if " + conds[0], b1), ("else", b2)])
+        shapes.append([("if " + conds[0], b1), ("elif " + conds[1], b2)])
+    for b1, b2, b3 in itertools.product(branch[:3] + branch[4:], repeat=3):
+        shapes.append([("if " + conds[0], b1), ("elif " + conds[1], b2), ("else", b3)])
+    out = []
+    for shape, post in itertools.product(shapes, ["return t", "return u"]):
+        lines = ["t = y", "u = y - 2"]
+        for head, body in shape:
+            lines.append(head + ":")
+            lines += ["    " + l for l in body.split("\n")]
+        lines.append(post)
+        out.append("\n".join("    " + l for l in lines))
+    return out
+
+
+def branch_import_sources() -> list[str]:
+    """function-local imports inside the branches of an if, re-binding a name that an earlier import (or the module)
+    binds differently; Python binds per path, so must the translation (seed-independent stratum)"""
+    outs = [("from c06h import hmul", "from c06g import hmul", "hmul(x, y)"),
+            ("from c06h import hmul, HD", "from c06g import hmul, HD", "hmul(x, y) + HD"),
+            ("import c06h as m", "import c06g as m", "m.hmul(x, y) + m.HC"),
+            ("import c06h as hp", "import c06g as hp", "hp.hsub(x, y) - hp.HD"),
+            ("from c06h import hsub as hmul", "from c06g import hmix as hmul", "hmul(x, y)"),
+            ("from c06h import HC as HD", "from c06g import NI as HD", "x * HD + y"),
+            ("import c06h", "from c06g import hmul as c06h", "hmul(x, y) + 1")]
+    shapes = [
+        "{o}\n    if x > 0:\n        {i}\n        return {u}\n    return {u}",
+        "{o}\n    if x > 0:\n        return {u}\n    else:\n        {i}\n        return {u}",
+        "{o}\n    if x > 0:\n        {i}\n        return {u}\n    elif x < -1:\n        return {u} + 1\n    return {u} * 2",
+        "{i}\n    if x > 0:\n        {o}\n        t = {u}\n        return t\n    elif y > 0:\n        {i}\n        return {u}\n    else:\n        return {u} - 1",
+        "{o}\n    if x > 0:\n        if y > 0:\n            {i}\n            return {u}\n        return {u} + 2\n    return {u}",
+        "if x > 0:\n        {i}\n        return {u}\n    {o}\n    return {u}",
+    ]
+    out = []
+    k = 0
+    for o, i, u in outs:
+        if u.startswith("hmul(x, y) + 1"):
+            # the last pair re-binds a module name to a function in the branch: only shapes where the use is a bare call
+            u = "hmul(x, y)"
+            o, i = "from c06h import hmul", "from c06g import hmix as hmul"
+        for sh in shapes:
+            out.append(f"def lb{k}(x, y):\n    " + sh.format(o=o, i=i, u=u) + "\n")
+            k += 1
     return out
 
 
